@@ -263,6 +263,8 @@ let () =
                          bad "href-enc" href_enc_agrees tabs.tb_href_enc ^ bad "href-dec" href_dec_agrees tabs.tb_href_dec ^
                          bad "quote" (quote_agrees (iph_of_list (hi_of ext))) tabs.tb_quote ^ bad "unquote" unquote_agrees tabs.tb_unquote ^
                          bad "time-fmt" time_fmt_agrees tabs.tb_time_fmt ^ bad "time-parse" time_parse_agrees tabs.tb_time_parse)))
+    | [L (A "in" :: _); L [A "drv"]; L [A "obs"; _; L [A "tampered"; what]]] ->
+      bump "obs_tampered"; Some ("agree=0 spec=0 kf=- :: the code under test modified " ^ string_of_chars (str what))
     | [L (A "in" :: _); L [A "drv"]; L [A "obs"; _; L [A "panic"]]] ->
       bump "obs_panic"; Some "agree=0 spec=0 kf=- :: implementation panicked"
     | _ -> raise (Parse_error "line"))
